@@ -38,3 +38,9 @@ CASES = [
       "            if res_old != res_new:"),
     t("partition written with literals", "_processes = dict(GSB=[_ptypes[0], _ptypes[1]], SE=[_ptypes[2], _ptypes[3]],", "_processes = dict(GSB=[\"R1g\", \"R2g\"], SE=[_ptypes[2], _ptypes[3]],"),
 ]
+
+CASES += [
+    m("getter treats a falsy tag as no tag", "C19-C",
+      "                if self.current_tag is not None:\n                    return piece[self.current_tag]",
+      "                if self.current_tag:\n                    return piece[self.current_tag]"),
+]
